@@ -3,7 +3,7 @@ TITLE = 'FIMO p-value tables are the exact tail distribution of the discretised 
 CONTRACT_MODULES = ['contracts.fimo_c']
 FUNCTIONS = ['tangermeme.tools.fimo._pwm_to_mapping']
 BOUNDED = 'bounded.C11'
-BOUNDED_BUDGET = {'quick': 60, 'thorough': 600}
+BOUNDED_BUDGET = {'quick': 120, 'thorough': 600}
 LEVEL = 'other'
 EXPLANATION = ('deductive (memory safety and initialisation of the whole function, all 9 loops under invariants): every read and write of the dynamic programme lies inside its array for every PWM (numba performs no bounds checks) - smallest / largest bound every prefix sum of the column minima / maxima, the finite entries of the running pdf after t columns have indices in [CSmin(t) - smallest, CSmax(t) - smallest] - and the table returned is written everywhere before it is returned, for every motif length including 1 (ghost init bits on numpy.empty buffers). An undischarged obligation is replayed by running the kernel as plain Python with every subscript checked (vf/boundscheck.py). The VALUE of the table is bounded only: exact big-integer tail-distribution oracle (brute force 4^w for w<=7, big-int DP to w=30), NaN / monotone / mass clauses, fimo() p-values')
 ASSUMPTIONS = ['the value of the table (exactness of the tail distribution) is not under contract (bounded only)', 'precondition: n >= 1 rows, l >= 1 columns, every discretised entry round(log_pwm / bin_size) strictly between the sentinels -9999999 and 9999999; integers are mathematical (no int32 / int64 overflow of the prefix sums)', 'column minima / maxima and their prefix sums are ghost definitions (they exist for n >= 1); sum_range_succ instances', 'logaddexp2 assumed to return some extended real at call sites; infinities modelled as one unspecified huge real']
